@@ -47,14 +47,38 @@ class CliWorld(ConnWorld):
         self.tags: set[str] = set()
         self.ret_hook = self._ret
         self.sessions = 0
+        self.viol07: list[str] = []
+        self.refused_calls: set[str] = set()
+        self.stopped_calls: set[str] = set()
+        self.established: set[str] = set()
+        self.session_call: str | None = None  # the accepted start/connect call that owns the current connection
+        self.finish_owner: dict[str, str] = {}
+        self.reconnect_in_callback: Any = None
         self.epoch = 0  # number of accepted start/connect calls: identifies "the connection a disconnect() was called on"
         self.disc_scope: dict[str, tuple[int, tuple[str, ...]]] = {}
 
-    async def _user_on_stop(self, expected: bool) -> None:
-        self.user_stops.append(expected)
-        self.note("user_on_stop", expected)
-        self.alive = False
-        self.between = False
+    def make_on_stop(self, call: str) -> Any:
+        """A distinct stop callback per start_connection/connect call (C07 at client level: the callback given at connect time)."""
+
+        async def cb(expected: bool) -> None:
+            self.user_stops.append(expected)
+            self.note("user_on_stop", call, expected)
+            was_alive = self.alive
+            self.alive = False
+            self.between = False
+            if call in self.refused_calls:
+                self.viol07.append(f"C07:client:foreign-callback: the stop callback given to the refused call {call} was invoked")
+            elif call != self.session_call:
+                self.viol07.append(f"C07:client:wrong-callback: session established through {self.session_call} ended, but the stop callback "
+                                   f"given to {call} was invoked")
+            if call in self.stopped_calls:
+                self.viol07.append(f"C07:client:twice: the stop callback given to {call} was invoked twice")
+            self.stopped_calls.add(call)
+            del was_alive
+            if self.reconnect_in_callback is not None:
+                self.reconnect_in_callback(self)
+
+        return cb
 
     def _ret(self, name: str) -> None:
         kind = name.split("#")[0]
@@ -76,6 +100,7 @@ class CliWorld(ConnWorld):
                     self.alive = True
                     self.sessions += 1
                     self.tags.add("session")
+                    self.established.add(self.finish_owner.get(name, name))
             else:
                 self.tags.add(f"{kind}-failed")
         elif kind in ("disc", "force"):
@@ -108,20 +133,24 @@ def _refused_already(w: CliWorld, name: str) -> bool:
 
 
 class CliHarness:
-    def __init__(self, seed: tuple[str, ...], probe: bool = True) -> None:
+    def __init__(self, seed: tuple[str, ...], probe: bool = True, c07: bool = False, reconnect: bool = False) -> None:
         self.seed = list(seed)
         self.can_fp = True
         self.probe = probe
+        self.c07 = c07  # report the client-level stop-callback clauses (C07) instead of the C19 clauses
+        self.reconnect = reconnect  # the user's stop callback immediately starts a new connection
 
     def fresh(self) -> CliWorld:
         w = CliWorld()
+        if self.reconnect:
+            w.reconnect_in_callback = lambda ww: self._attempt(ww, "start")
         for lab in self.seed:
             self.apply(w, lab)
         return w
 
     # --- enabled ---------------------------------------------------------------------------------
     def enabled(self, w: CliWorld) -> list[Any]:
-        if w.viol:
+        if self.verdict(w):
             return []
         base: list[Any] = ["start", "connect"]
         if w.between and not w.inflight:
@@ -206,17 +235,23 @@ class CliHarness:
             # legal use only: after a successful start_connection, nothing else in flight
             w.between = False
             w.inflight[name] = kind
+            w.finish_owner[name] = w.session_call or name
             w.spawn(name, lambda: w.client.finish_connection(login=False))
             return
         must_accept = not w.inflight and not w.between and not w.alive
         must_refuse = bool(w.inflight) or w.alive
         w.inflight[name] = kind
+        prev_owner = w.session_call
+        w.session_call = name  # provisional: set before the call so that a callback firing inside it is attributed correctly
+        cb = w.make_on_stop(name)
         if kind == "start":
-            w.spawn(name, lambda: w.client.start_connection(on_stop=w._user_on_stop))
+            w.spawn(name, lambda: w.client.start_connection(on_stop=cb))
         else:
-            w.spawn(name, lambda: w.client.connect(on_stop=w._user_on_stop, login=False))
+            w.spawn(name, lambda: w.client.connect(on_stop=cb, login=False))
         refused = _refused_already(w, name)
         if refused:
+            w.session_call = prev_owner
+            w.refused_calls.add(name)
             w.tags.add("refused")
             if len(w.net.sockets) != socks:
                 w.viol.append(f"C19:refused-with-side-effect:{kind}: a refused {kind} opened a socket")
@@ -276,12 +311,25 @@ class CliHarness:
 
     # --- oracle ----------------------------------------------------------------------------------------
     def verdict(self, w: CliWorld) -> list[str]:
-        return list(w.viol)
+        return list(w.viol07) if self.c07 else list(w.viol)
 
     def finish(self, w: CliWorld) -> list[str]:
         """Quiesce, then probe: the client must take a complete new session."""
         w.drain()
         w.run_timers(w.loop.time() + 400.0)
+        if self.c07:
+            # end whatever session is left, then every established session must have seen its own callback exactly once
+            w.reconnect_in_callback = None
+            w.disc_inflight += 1
+            w.disc_scope["disc#probe"] = (w.epoch, tuple(w.inflight))
+            w.spawn("disc#probe", lambda: w.client.disconnect())
+            w.drain()
+            w.run_timers(w.loop.time() + 60.0)
+            v = list(w.viol07)
+            for call in sorted(w.established):
+                if call not in w.stopped_calls:
+                    v.append(f"C07:client:missing: the session established through {call} has ended but its stop callback was never invoked")
+            return v
         if w.viol:
             return list(w.viol)
         v: list[str] = []
@@ -293,6 +341,7 @@ class CliHarness:
             return v
         # whatever state we are in, disconnect() must bring the client back to idle
         w.note("ev", "probe")
+        w.reconnect_in_callback = None  # the probe drives the reconnect itself
         w.disc_inflight += 1
         w.disc_scope["disc#probe"] = (w.epoch, tuple(w.inflight))
         w.spawn("disc#probe", lambda: w.client.disconnect())
@@ -457,8 +506,8 @@ def surface_sweep(res: Result) -> dict[str, Any]:
     return {"surface_calls": n, "surface_methods": len(methods), "surface_stages": len(STAGES)}
 
 
-def factory(seed: tuple[str, ...]) -> CliHarness:
-    return CliHarness(seed)
+def factory(seed: tuple[str, ...], c07: bool = False, reconnect: bool = False) -> CliHarness:
+    return CliHarness(seed, c07=c07, reconnect=reconnect)
 
 
 SEEDS: list[tuple[str, ...]] = [
@@ -480,16 +529,20 @@ def run(tier: str, seed: int) -> Result:
     budget = 150.0 if q else 2400.0
     t_end = time.monotonic() + budget
     per = []
-    for i, sd in enumerate(SEEDS):
+    cfgs = [(sd, False) for sd in SEEDS] + [(sd, True) for sd in SEEDS if "hello" in sd and sd[-1] == "hello"] + [(("connect", "tcp_ok", "hello"), True)]
+    for i, (sd, rec) in enumerate(cfgs):
         depth, bound = (4, 1) if q else (6, 2)
-        left = max(5.0, (t_end - time.monotonic()) / (len(SEEDS) - i))
-        st = explore_parallel(factory, (sd,), depth=depth, bound=bound, budget_s=left, split_depth=1)
-        per.append({"seed": list(sd), "depth_after_seed": depth, "deviation_bound": bound, "executions": st.executions, "states": st.states,
+        if rec:
+            depth -= 1
+        left = max(5.0, (t_end - time.monotonic()) / (len(cfgs) - i))
+        st = explore_parallel(factory, (sd, False, rec), depth=depth, bound=bound, budget_s=left, split_depth=1)
+        per.append({"seed": list(sd), "stop_callback_reconnects_immediately": rec, "depth_after_seed": depth, "deviation_bound": bound, "executions": st.executions, "states": st.states,
                     "transitions": st.transitions, "time_capped": st.time_capped})
         for v in st.violations:
             clause = v["violated"][0]
             kind = ":".join(clause.split(":")[:3])[:70]
-            res.add(kind, clause, {"harness": "c19", "seed": list(sd), "choices": v["choices"], "violated": v["violated"], "observations": v["observations"]})
+            res.add(kind, clause, {"harness": "c19", "seed": list(sd), "reconnect": rec, "choices": v["choices"], "violated": v["violated"],
+                                   "observations": v["observations"]})
         total.merge(st)
     sweep = surface_sweep(res)
     if sweep["surface_methods"] < 40:
@@ -532,7 +585,7 @@ def replay(rp: dict[str, Any]) -> bool:
         for v in bad:
             print(" ", v.clause)
         return not bad
-    h = factory(tuple(d["seed"]))
+    h = factory(tuple(d["seed"]), bool(d.get("c07")), bool(d.get("reconnect")))
     w = h.fresh()
     try:
         v: list[str] = []
